@@ -108,6 +108,7 @@ func VerifHarness_C16_connection_bind_handler() {
 	copies := vGhostInt("io_copy_calls")
 	vAssertIf(!good, copies == 0, "C16.no_piping_without_a_valid_bind")
 	vAssertIf(!entitled, vAnd(a.VHasTCPConn(id0), peerConn.Closed == 0), "C03.connection_bind_without_owner_credentials_changes_nothing")
+	vAssertIf(!good, vAnd(a.VHasTCPConn(id0), peerConn.Closed == 0), "C16.refused_connection_bind_leaves_the_peer_connection_alone")
 	if !entitled && cid == id0 {
 		// a refused attempt (wrong user / bad credentials) must not use the connection up
 		got := s.env.M.GetTCPConnection(owner, id0)
